@@ -164,7 +164,10 @@ def split_ranges(intsize, step, start, end):
         nextstart = (start + diff if haslower else start) & not_mask
         nextend = (end - diff if hasupper else end) & not_mask
 
-        if shift + step >= intsize or nextstart > nextend:
+        if (shift + step >= intsize or nextstart > nextend
+            or nextstart < start or nextend > end):
+            # The last two tests catch the next level wrapping around the
+            # bottom or top of the domain (as in Lucene's splitRange)
             yield (start, setbits(end), shift)
             break
 
